@@ -503,3 +503,20 @@ Proof.
   exists adts. split; [|split; assumption].
   rewrite asc_unmarshal_fields by assumption. rewrite (proj2 (validate_spec _) Ha). reflexivity.
 Qed.
+
+(* a frame_length field smaller than the header: the uint16 subtraction wraps to 65529 *)
+Lemma length_underflow st x p :
+  adts_decode st ([255; 241; 80; 128; 0; 0; 252] ++ x :: p) =
+  (mk_asc 2 4 2, if lenN (x :: p) <? 65529 then Err 4
+                 else match splitN (x :: p) 65529 with Some (raw, rest) => Ok (raw, rest) | None => Panic 10 end).
+Proof.
+  pose proof (parse_head_hdr7 0 0 1 1 4 0 2 0 0 0 0 0 63 0 0 0 x p) as P.
+  cbn [N.eqb Pos.eqb app] in P.
+  change (hdr7 0 0 1 1 4 0 2 0 0 0 0 0 63 0) with [255; 241; 80; 128; 0; 0; 252] in P.
+  unfold adts_decode. cbn [app] in *. rewrite P by lia.
+  cbn [hd_profile hd_sfi hd_ch hd_flen hd_nbheader hd_rest].
+  rewrite (to_object_lt3 1) by lia. change (1 + 1) with 2.
+  change (u16 (0 + 65536 - 7)) with 65529.
+  rewrite len_ltN_spec. destruct (lenN (x :: p) <? 65529); [reflexivity|].
+  destruct (splitN (x :: p) 65529) as [[raw rest]|]; reflexivity.
+Qed.
